@@ -10,7 +10,7 @@ LEVEL = "proof"
 # which variant of the three repaired sites the code under test is expected to be (d6_pinned, d6t_pinned, d9_pinned):
 # "1" = pinned commit, "0" = repaired code (hooks/c06_fix_d6.patch, hooks/c06_fix_d6t.patch, hooks/c06_fix_d9.patch).
 # Flipped by the coordinator when the fix commits land.
-PINNED = ("1", "1", "1")
+PINNED = ("0", "1", "0")
 if os.environ.get("C06_PINNED"):        # only for testing the fix patches in a scratch worktree: C06_PINNED=0,0,0
     PINNED = tuple(os.environ["C06_PINNED"].split(","))
 
@@ -481,6 +481,13 @@ def run(ck):
                 v = un(x)
                 if math.isfinite(v):
                     exc = max(exc, v - 1.0, -v)
+    # face of D6 on the temperature path (inside the documented bounds, hence no violation): neutral cell at the 30000 K cap
+    nw = nw30 = 0
+    for idx, ((k, c), o) in enumerate(zip(cases, out_i)):
+        if k == "T" and 0.0 < c[8] * c[10][0] < 1e-20 and c[13] > 0.0 and o.split()[1] != "ABORT":
+            nw += 1
+            nw30 += 1 if un(o.split()[1]) == 30000.0 else 0
+    cov["weak_field_cells_in_temperature_cases"] = {"0<jH<1e-20": nw, "returned_30000K_fully_neutral": nw30}
     cov["exploration_hhe_sweep"] = {"points": len(sw_out), "aborts": nab, "largest_excursion_outside_[0,1]": exc,
                                     "domain": "jH 1e-20..1e3 (47 half-decades), jHe/jH 0..40, nH 1e4..1e12, T 500..30000 K, AHe 1e-6..0.6"}
     # --- correspondence ----------------------------------------------------------------------------------
